@@ -404,4 +404,319 @@ mutual
 end
 end main
 
+/-! ### one iteration of the wrapped body -/
+
+theorem execS_ifNotFlag (call : CallFn N) (ρ : ExtOracle N) (k : Nat) (env1 : Env N) (flag : String) (s : State N) :
+    execS call ρ k env1 (.ifs [(.un .not (.var flag), .mk [] (some .brk))] none) s =
+      if (lookupVar env1 flag s).truthy then .ok (.next env1) s else .ok .brk s := by
+  have tb : ∀ b : Bool, (Val.bool b : Val N).truthy = b := fun _ => rfl
+  cases hv : (lookupVar env1 flag s).truthy <;>
+    simp [execS, execBranches, evalE, unopVal, execB, execSs, execLast, Res.bind, first, hv, tb]
+
+theorem execS_repeatOnce (call : CallFn N) (ρ : ExtOracle N) (k0 : Nat) (env1 : Env N) (inner : Block) (σ0 : State N) :
+    execS call ρ (k0 + 1) env1 (.repeat_ inner .true) σ0 =
+      (execB call ρ (k0 + 1) env1 inner σ0).bind fun c s =>
+        match c with
+        | .ret vs => .ok (.ret vs) s
+        | _ => .ok (.next env1) s := by
+  simp only [execS, whileLoop, repeatStep_eq_execB, evalE]
+  cases execB call ρ (k0 + 1) env1 inner σ0 with
+  | timeout => simp [Res.bind]
+  | err v s => simp [Res.bind]
+  | ok c s => cases c <;> simp [Res.bind, first, Val.truthy]
+
+/-- what the wrapped body does, in terms of its inner block (for a positive budget: the inner `repeat` runs once) -/
+theorem execB_contWrap (call : CallFn N) (ρ : ExtOracle N) (k0 : Nat) (env' : Env N) (flag : String) (B' : Block)
+    (σ' : State N) :
+    execB call ρ (k0 + 1) env' (contWrap flag B') σ' =
+      (execB call ρ (k0 + 1) { env' with locals := (flag, σ'.cells.length) :: env'.locals } (contInner flag B')
+          (σ'.allocCell (.bool false)).2).bind fun c s =>
+        match c with
+        | .ret vs => .ok (.ret vs) s
+        | _ =>
+          if (lookupVar { env' with locals := (flag, σ'.cells.length) :: env'.locals } flag s).truthy
+          then .ok (.next { env' with locals := (flag, σ'.cells.length) :: env'.locals }) s else .ok .brk s := by
+  have hloc : execS call ρ (k0 + 1) env' (.localAssign .loc [.mk flag none] [.false]) σ' =
+      .ok (.next { env' with locals := (flag, σ'.cells.length) :: env'.locals }) (σ'.allocCell (.bool false)).2 := by
+    simp [execS, evalEs, evalE, bindLocals, Res.bind, first, TName.name, State.allocCell]
+  simp only [contWrap, execB, execSs, hloc, Res.bind, execS_repeatOnce, execS_ifNotFlag]
+  cases execB call ρ (k0 + 1) { env' with locals := (flag, σ'.cells.length) :: env'.locals } (contInner flag B')
+      (σ'.allocCell (.bool false)).2 with
+  | timeout => simp [Res.bind]
+  | err v s => simp [Res.bind]
+  | ok c s =>
+    cases c <;> dsimp only <;>
+      first
+        | rfl
+        | (generalize (lookupVar { env' with locals := (flag, σ'.cells.length) :: env'.locals } flag s).truthy = t
+           cases t <;> rfl)
+
+theorem execB_last_ne_next (call : CallFn N) (ρ : ExtOracle N) (k : Nat) (env e : Env N) (ss : List Stmt) (l : Last)
+    (σ s : State N) : execB call ρ k env (.mk ss (some l)) σ ≠ .ok (.next e) s := by
+  intro h
+  simp only [execB] at h
+  obtain ⟨c, σ1, _, h⟩ := bind_eq_ok h
+  cases c <;> simp only [] at h
+  · cases l <;> simp only [execLast] at h
+    · obtain ⟨_, _, _, h⟩ := bind_eq_ok h; cases h
+    · cases h
+    · cases h
+  all_goals cases h
+
+/-- results of the inner block of the `repeat`: the flag is set exactly when the original wants another iteration -/
+def AIn (cf : Nat) : ARel N (Ctl N) := fun β c c' =>
+  match c, c' with
+  | .next _, .next _ => (cf, Val.bool true) ∈ β.pins
+  | .cont _, .brk => (cf, Val.bool true) ∈ β.pins
+  | .brk, .brk => (cf, Val.bool false) ∈ β.pins
+  | .ret vs, .ret vs' => vs = vs'
+  | _, _ => False
+
+/-- loop bodies related up to the shape of their control result, for a positive budget -/
+def BodyShape (Q : QRel) (cx : Cx) (D : List DName) (b b' : Block) : Prop :=
+  ∀ (N : NumOps) (call : CallFn N) (ρ : ExtOracle N) (k : Nat) (env env' : Env N) (σ σ' : State N) (β : CellRel N),
+    0 < k → CallOK Q cx call → SRel Q cx β σ σ' → EnvOK cx β D env env' →
+      RRel Q cx β (fun _ => CtlShape) (execB call ρ k env b σ) (execB call ρ k env' b' σ')
+
+section iter
+variable (hq : QRefl cx Q) {D1 : List DName} {flag : String}
+include hq
+
+/-- the original body against the inner block of the `repeat` -/
+theorem cvInner {B B' : Block} (hcv : ContConv flag B B') (hn : NoRefB D1 B) (hw : NoRefB [.wat flag] B)
+    (call : CallFn N) (ρ : ExtOracle N) (k : Nat) (env env' : Env N) (σ σ' : State N) (β : CellRel N) (cf : Nat)
+    (hc : CallOK Q cx call) (hsr : SRel Q cx β σ σ') (hf : FlagOK cx β D1 flag cf env env')
+    (hp : (cf, Val.bool false) ∈ β.pins) :
+    XRel cf Q cx β (AIn cf) (execB call ρ k env B σ) (execB call ρ k env' (contInner flag B') σ') := by
+  -- blocks with a last statement never fall through
+  have withLast : ∀ (ss ss' : List Stmt) (l l' : Last), ContConv flag (.mk ss (some l)) (.mk ss' (some l')) →
+      NoRefB D1 (.mk ss (some l)) → NoRefB [.wat flag] (.mk ss (some l)) →
+      XRel cf Q cx β (AIn cf) (execB call ρ k env (.mk ss (some l)) σ) (execB call ρ k env' (.mk ss' (some l')) σ') := by
+    intro ss ss' l l' hcv hn hw
+    have hx := cvB hq hcv hn hw N call ρ k env env' σ σ' β cf hc hsr hf hp
+    cases hL : execB call ρ k env (.mk ss (some l)) σ <;> cases hR : execB call ρ k env' (.mk ss' (some l')) σ' <;>
+      rw [hL, hR] at hx <;> simp only [XRel] at hx ⊢
+    · obtain ⟨β1, h1, ha, h⟩ := hx
+      rename_i c _ c' _
+      cases c <;> cases c' <;> simp only [AConv] at ha
+      · exact absurd hL (execB_last_ne_next call ρ k env _ ss l σ _)
+      · exact ⟨β1, h1, ha, h⟩
+      · exact ⟨β1, h1, ha, h⟩
+      · exact ⟨β1, h1, ha, h⟩
+    · exact hx
+    · exact hx
+    · exact hx
+  cases hcv with
+  | cont hss => exact withLast _ _ _ _ (.cont hss) hn hw
+  | @other ss ss' l hl hss =>
+    cases l with
+    | some l0 => exact withLast _ _ _ _ (.other hl hss) hn hw
+    | none =>
+      have ih := cvSs hq hss (NoRefB.none.mp hn) (NoRefB.none.mp hw)
+      simp only [contInner, execB, execSs_snoc_setFlag]
+      have hx := ih N call ρ k env env' σ σ' β cf hc hsr hf hp
+      revert hx
+      generalize execSs call ρ k env ss σ = r
+      generalize execSs call ρ k env' ss' σ' = r'
+      intro hx
+      cases r <;> cases r' <;> simp only [XRel] at hx
+      · obtain ⟨β1, h1, ha, h⟩ := hx
+        rename_i c s c' s'
+        simp only [Res.bind]
+        cases c <;> cases c' <;> simp only [AConv] at ha
+        · rename_i e e'
+          have hpin := h.pin _ ha.2
+          have hlt : cf < s'.cells.length := by
+            cases hx : s'.cells[cf]? with
+            | none => rw [hx] at hpin; cases hpin.1
+            | some _ => exact (List.getElem?_eq_some_iff.mp hx).1
+          have h2 := h.assignRight ha.1.look hlt hpin.2 (.bool true)
+          refine ⟨β1.repin cf (.bool true), h1.trans (leX_repin β1 cf _), ?_, h2⟩
+          show (cf, Val.bool true) ∈ (β1.repin cf (.bool true)).pins
+          simp [CellRel.repin]
+        · exact ⟨β1, h1, ha, h⟩
+        · exact ⟨β1, h1, ha, h⟩
+        · exact ⟨β1, h1, ha, h⟩
+      · exact hx
+      · exact XRel.timeout_left hx _
+      · exact XRel.timeout_left hx _
+      · trivial
+
+/-- **one iteration**: the original loop body against the wrapped body -/
+theorem contWrap_body {D : List DName} {B B' : Block} (hcv : ContConv flag B B') (hn : NoRefB D B)
+    (hrf : B.refs (.ref flag) = false) (hwf : B.refs (.wat flag) = false) (hD : DName.wat flag ∉ D) :
+    BodyShape Q cx D B (contWrap flag B') := by
+  intro N call ρ k env env' σ σ' β hk hc hs he
+  obtain ⟨k0, rfl⟩ : ∃ k0, k = k0 + 1 := ⟨k - 1, by omega⟩
+  rw [execB_contWrap]
+  obtain ⟨β1, hle1, hs1, hpin, _⟩ := hs.allocRightPinned (.bool false)
+  have hnp : ∀ p ∈ β.pins, p.1 ≠ σ'.cells.length := fun p hp e => by
+    have hh := hs.pin p hp
+    cases hx : σ'.cells[p.1]? with
+    | none => rw [hx] at hh; cases hh.1
+    | some _ => have := (List.getElem?_eq_some_iff.mp hx).1; omega
+  have hn1 : NoRefB (DName.ref flag :: D) B := fun x hx => by
+    rcases List.mem_cons.mp hx with rfl | hx
+    · exact hrf
+    · exact hn x hx
+  have hw1 : NoRefB [DName.wat flag] B := fun x hx => by
+    simp only [List.mem_singleton] at hx; subst hx; exact hwf
+  have hext : DExt D (DName.ref flag :: D) :=
+    ⟨fun x hx => List.mem_cons_of_mem _ hx, fun n hm => by
+      rcases List.mem_cons.mp hm with e | hm
+      · cases e
+      · exact hm⟩
+  have hflag : FlagOK cx β1 (DName.ref flag :: D) flag σ'.cells.length env
+      { env' with locals := (flag, σ'.cells.length) :: env'.locals } :=
+    ⟨⟨he.va, ((he.mono hle1).loc.weaken hext).consRight flag _ List.mem_cons_self (fun hm => by
+        rcases List.mem_cons.mp hm with e | hm
+        · cases e
+        · exact hD hm)⟩, by simp [lookupAssoc]⟩
+  have hx := cvInner hq hcv hn1 hw1 call ρ (k0 + 1) env _ σ _ β1 σ'.cells.length hc hs1 hflag hpin
+  revert hx
+  generalize execB call ρ (k0 + 1) env B σ = r
+  generalize execB call ρ (k0 + 1) { env' with locals := (flag, σ'.cells.length) :: env'.locals } (contInner flag B')
+    (σ'.allocCell (.bool false)).2 = r'
+  intro hx
+  cases r <;> cases r' <;> simp only [XRel] at hx
+  · obtain ⟨β2, hX, ha, hs2⟩ := hx
+    rename_i c s c' s'
+    have hle2 := le_of_leX hle1 hX hnp
+    have hlook : ∀ {v : Val N}, (σ'.cells.length, v) ∈ β2.pins →
+        lookupVar { env' with locals := (flag, σ'.cells.length) :: env'.locals } flag s' = v := fun hp =>
+      hs2.lookupPinned (by simp [lookupAssoc]) hp
+    simp only [Res.bind]
+    cases c <;> cases c' <;> simp only [AIn] at ha
+    · simp only [hlook ha, Val.truthy, if_true]
+      exact ⟨β2, hle2, trivial, hs2⟩
+    · simp only [hlook ha, Val.truthy, Bool.false_eq_true, if_false]
+      exact ⟨β2, hle2, trivial, hs2⟩
+    · simp only [hlook ha, Val.truthy, if_true]
+      exact ⟨β2, hle2, trivial, hs2⟩
+    · subst ha
+      exact ⟨β2, hle2, rfl, hs2⟩
+  · obtain ⟨hv, β2, hX, hs2⟩ := hx
+    exact ⟨hv, β2, le_of_leX hle1 hX hnp, hs2⟩
+  · exact RRel.timeout_left hx _
+  · exact RRel.timeout_left hx _
+  · trivial
+end iter
+
+/-! ### loops whose bodies are related up to the shape of the control result -/
+
+section loops
+variable {D : List DName}
+
+theorem SoundS.while_shape {b b' c c'} (ihc : SoundE Q cx D c c') (ihb : BodyShape Q cx D b b') :
+    SoundS Q cx D (.while_ c b) (.while_ c' b') := by
+  intro N call ρ k env env' σ σ' β hc hs he
+  simp only [execS]
+  cases k with
+  | zero => simp only [whileLoop, Res.bind]; exact RRel.timeout
+  | succ k0 =>
+    refine RRel.bindEq ?_ fun β2 h2 r _ _ h => RRel.loopEnd he h2 h
+    apply whileLoop_rel
+    · intro β2 h2 s s' h
+      refine RRel.bindEq (ihc N call ρ (k0 + 1) env env' s s' β2 hc h (he.mono h2)) fun β3 h3 _ _ _ h => ?_
+      split
+      · refine RRel.bind (ihb N call ρ (k0 + 1) env env' _ _ _ (Nat.succ_pos _) hc h ((he.mono h2).mono h3))
+          fun β4 h4 ct ct' hcc _ _ h => ?_
+        exact RRel.ok (A := fun _ => OCtlShape) (show OCtlShape (some ct) (some ct') from hcc) h
+      · exact RRel.ok (A := fun _ => OCtlShape) (show OCtlShape none none from trivial) h
+    · exact hs
+
+theorem nfor_tail_shape {N : NumOps} {call : CallFn N} {ρ : ExtOracle N} {k0 : Nat} {env env' : Env N} {β : CellRel N}
+    (hc : CallOK Q cx call) (he : EnvOK cx β D env env')
+    {n n' : TName} {body body' : Block} (hn : n.name = n'.name) (hw : DName.wat n'.name ∉ D)
+    (ihbody : BodyShape Q cx D body body') (a b c : List (Val N)) {σ σ' : State N} (h : SRel Q cx β σ σ') :
+    RRel Q cx β (ACtlS cx D)
+      (match toNumber? (first a), toNumber? (first b), toNumber? (first c) with
+        | some x, some y, some z =>
+          (forLoop (fun i σ =>
+              execB call ρ (k0 + 1) { env with locals := (n.name, (σ.allocCell (.num i)).1) :: env.locals } body
+                (σ.allocCell (.num i)).2)
+            y z (k0 + 1) x σ).bind fun r σ4 =>
+            match r with
+            | some rv => (Res.ok (Ctl.ret rv) σ4 : Res N (Ctl N))
+            | none => .ok (Ctl.next env) σ4
+        | _, _, _ => errS "'for' initial value, limit and step must be numbers" σ)
+      (match toNumber? (first a), toNumber? (first b), toNumber? (first c) with
+        | some x, some y, some z =>
+          (forLoop (fun i σ =>
+              execB call ρ (k0 + 1) { env' with locals := (n'.name, (σ.allocCell (.num i)).1) :: env'.locals } body'
+                (σ.allocCell (.num i)).2)
+            y z (k0 + 1) x σ').bind fun r σ4 =>
+            match r with
+            | some rv => (Res.ok (Ctl.ret rv) σ4 : Res N (Ctl N))
+            | none => .ok (Ctl.next env') σ4
+        | _, _, _ => errS "'for' initial value, limit and step must be numbers" σ') := by
+  split
+  · refine RRel.bindEq ?_ fun β2 h2 r _ _ h => RRel.loopEnd he h2 h
+    apply forLoop_rel
+    · intro β2 h2 i s s' h
+      have ha := h.allocBoth (.num i)
+      refine RRel.mono (le_extBoth h) ?_
+      rw [hn]
+      have he3 : EnvOK cx (extBoth β2 s s') D
+          { env with locals := (n'.name, (s.allocCell (.num i)).1) :: env.locals }
+          { env' with locals := (n'.name, (s'.allocCell (.num i)).1) :: env'.locals } :=
+        ⟨he.va, ((he.mono h2).loc.mono (le_extBoth h)).cons _ hw extBoth_new⟩
+      exact ihbody N call ρ (k0 + 1) _ _ _ _ _ (Nat.succ_pos _) hc ha he3
+    · exact h
+  · exact RRel.errS h
+
+theorem SoundS.nfor_shape {n n' a a' b b' st st' body body'} (hn : TName.name n = TName.name n')
+    (hw : DName.wat n'.name ∉ D) (iha : SoundE Q cx D a a') (ihb : SoundE Q cx D b b')
+    (ihst : OptRel (SoundE Q cx D) st st') (ihbody : BodyShape Q cx D body body') :
+    SoundS Q cx D (.nfor n a b st body) (.nfor n' a' b' st' body') := by
+  intro N call ρ k env env' σ σ' β hc hs he
+  cases k with
+  | zero =>
+    -- no budget: both loops time out as soon as they start; the headers are related
+    cases st <;> cases st' <;> simp only [OptRel] at ihst <;> simp only [execS]
+    · refine RRel.bindEq (iha N call ρ 0 env env' σ σ' β hc hs he) fun β1 h1 _ _ _ h =>
+        RRel.bindEq (ihb N call ρ 0 env env' _ _ _ hc h (he.mono h1)) fun β2 h2 _ _ _ h =>
+          RRel.bindEq (RRel.okEq h) fun β3 h3 _ _ _ h => ?_
+      split
+      · simp only [forLoop, Res.bind]; exact RRel.timeout
+      · exact RRel.errS h
+    · refine RRel.bindEq (iha N call ρ 0 env env' σ σ' β hc hs he) fun β1 h1 _ _ _ h =>
+        RRel.bindEq (ihb N call ρ 0 env env' _ _ _ hc h (he.mono h1)) fun β2 h2 _ _ _ h =>
+          RRel.bindEq (ihst N call ρ 0 env env' _ _ _ hc h ((he.mono h1).mono h2)) fun β3 h3 _ _ _ h => ?_
+      split
+      · simp only [forLoop, Res.bind]; exact RRel.timeout
+      · exact RRel.errS h
+  | succ k0 =>
+    cases st <;> cases st' <;> simp only [OptRel] at ihst <;> simp only [execS]
+    · exact RRel.bindEq (iha N call ρ _ env env' σ σ' β hc hs he) fun β1 h1 _ _ _ h =>
+        RRel.bindEq (ihb N call ρ _ env env' _ _ _ hc h (he.mono h1)) fun β2 h2 _ _ _ h =>
+          RRel.bindEq (RRel.okEq h) fun β3 h3 _ _ _ h =>
+            nfor_tail_shape hc (((he.mono h1).mono h2).mono h3) hn hw ihbody _ _ _ h
+    · exact RRel.bindEq (iha N call ρ _ env env' σ σ' β hc hs he) fun β1 h1 _ _ _ h =>
+        RRel.bindEq (ihb N call ρ _ env env' _ _ _ hc h (he.mono h1)) fun β2 h2 _ _ _ h =>
+          RRel.bindEq (ihst N call ρ _ env env' _ _ _ hc h ((he.mono h1).mono h2)) fun β3 h3 _ _ _ h =>
+            nfor_tail_shape hc (((he.mono h1).mono h2).mono h3) hn hw ihbody _ _ _ h
+
+theorem SoundS.gfor_shape {ns ns' vs vs' b b'} (hn : ns.map TName.name = ns'.map TName.name)
+    (hw : ∀ n ∈ ns'.map TName.name, DName.wat n ∉ D) (ihv : SoundEs Q cx D vs vs')
+    (ihb : BodyShape Q cx D b b') : SoundS Q cx D (.gfor ns vs b) (.gfor ns' vs' b') := by
+  intro N call ρ k env env' σ σ' β hc hs he
+  simp only [execS, hn]
+  refine RRel.bindEq (ihv N call ρ k env env' σ σ' β hc hs he) fun β1 h1 vals _ _ h => ?_
+  have he1 := he.mono h1
+  cases k with
+  | zero => simp only [gforLoop, Res.bind]; exact RRel.timeout
+  | succ k0 =>
+    refine RRel.bindEq ?_ fun β2 h2 r _ _ h => RRel.loopEnd he1 h2 h
+    apply gforLoop_rel
+    · intro β2 h2 c s s' h; exact callVal_param hc _ _ _ h
+    · intro β2 h2 rs s s' h
+      obtain ⟨β3, h3, hs3, he3⟩ := h.bindLocals (ns'.map TName.name) hw rs (he1.mono h2).loc
+      refine RRel.mono h3 ?_
+      have he4 : EnvOK cx β3 D { env with locals := (bindLocals (ns'.map TName.name) rs env.locals s).1 }
+          { env' with locals := (bindLocals (ns'.map TName.name) rs env'.locals s').1 } := ⟨he.va, he3⟩
+      exact ihb N call ρ (k0 + 1) _ _ _ _ _ (Nat.succ_pos _) hc hs3 he4
+    · exact h
+end loops
+
 end DarkluaModel.Sem.Heap
